@@ -88,7 +88,7 @@ theorem container_ids_nodup_nonzero (specs : List AccSpec) (ops : List Op) :
   have hinv : Inv m := Inv_run _ ops (Inv_init _ (by
     intro a ha
     obtain ⟨s, _, rfl⟩ := List.mem_map.mp ha
-    exact Nat.le_refl 1))
+    exact build_idCount s))
   refine ⟨hinv.nodupIds, fun i hi => ?_⟩
   obtain ⟨k, hk, rfl⟩ := List.mem_map.mp hi
   exact hinv.nz k hk
@@ -104,11 +104,40 @@ theorem served_instance_ids_unique_nonzero (specs : List AccSpec) (ops : List Op
   have hinv : Inv m := Inv_run _ ops (Inv_init _ (by
     intro a ha
     obtain ⟨s, _, rfl⟩ := List.mem_map.mp ha
-    exact Nat.le_refl 1))
+    exact build_idCount s))
   obtain ⟨c, hc, hf⟩ := hinv.seq k hk a ha
   refine ⟨⟨c, hc, hf⟩, ?_⟩
   rw [hf]
   exact range'_nodup_nonzero _ _ hc
+
+/-- A service the application adds to an accessory — before the accessory has seen a container, while it is being served,
+    after it was removed — has instance ids from that moment on: `AddService` numbers the accessory (F60 repair; before it a
+    service added to a served accessory appeared in `/accessories` with `"iid":0`, and all its characteristics too, until
+    something else numbered the accessory — which the library's own `TestContentHash` sequence never does). With the
+    operation in the alphabet, `served_instance_ids_unique_nonzero` and `container_ids_nodup_nonzero` hold for every
+    history that contains it; this is the one-step statement, from ANY accessory object. -/
+theorem added_service_is_numbered (a : Acc) (s : SvcSpec) :
+    flatIds (a.addService s.build).svcs = List.range' 1 (size a.svcs + 1 + s.nchars) ∧
+    (flatIds (a.addService s.build).svcs).Nodup ∧ ∀ i ∈ flatIds (a.addService s.build).svcs, i ≠ 0 := by
+  have h := updateIDs_seq ({ a with svcs := a.svcs ++ [s.build] } : Acc)
+  have hsz : size (Acc.updateIDs ({ a with svcs := a.svcs ++ [s.build] } : Acc)).svcs = size a.svcs + 1 + s.nchars := by
+    have : size (Acc.updateIDs ({ a with svcs := a.svcs ++ [s.build] } : Acc)).svcs = size (a.svcs ++ [s.build]) :=
+      size_eq_of_shape (assignSvcs_shape _ _)
+    rw [this]
+    simp [size, SvcSpec.build, List.sum_append]
+    omega
+  have hf : flatIds (a.addService s.build).svcs = List.range' 1 (size a.svcs + 1 + s.nchars) := by
+    show flatIds (Acc.updateIDs _).svcs = _
+    rw [h.1, hsz]
+  refine ⟨hf, ?_⟩
+  rw [hf]
+  exact range'_nodup_nonzero _ _ (Nat.le_refl 1)
+
+/-- before the repair: the added service and its characteristics kept id 0 -/
+theorem added_service_unfixed_refuted :
+    let a : Acc := (AccSpec.build ⟨0, [⟨2, [], false, false⟩]⟩)
+    flatIds (a.addServiceOld (SvcSpec.build ⟨2, [], false, false⟩)).svcs = [1, 2, 3, 0, 0, 0] ∧
+    flatIds (a.addService (SvcSpec.build ⟨2, [], false, false⟩)).svcs = [1, 2, 3, 4, 5, 6] := by decide
 
 /-- "…with explicit or automatic accessory ids": an accessory that leaves its id to the container is never refused,
     whatever ids the accessories before it brought along — from ANY state of the container (F54 repair; before it the
